@@ -512,6 +512,7 @@ theorem inv_step {s : State} (h : Inv s) (op : Op) : Inv (step s op).1 := by
   | take hd => exact inv_take h hd
   | get hd => exact inv_get h hd
   | dupHandle hd => exact inv_dupHandle h hd
+  | dupHandleFail hd => simp only [step, dupHandleFail_state]; exact h
   | cloneHandle hd => exact inv_cloneHandle h hd
   | dropHandle hd => exact inv_dropHandle h hd
 
